@@ -133,6 +133,17 @@ class PropertyGroup(ABC):
             )
 
         self._association = value
+        self._update()
+
+    def _update(self):
+        """Re-write the group on file once it is stored."""
+        parent = getattr(self, "_parent", None)
+        if (
+            parent is not None
+            and self.on_file
+            and self in (getattr(parent, "_property_groups", None) or [])
+        ):
+            parent.workspace.add_or_update_property_group(self)
 
     @property
     def attribute_map(self) -> dict:
@@ -165,6 +176,7 @@ class PropertyGroup(ABC):
             raise TypeError("Name must be a string")
 
         self._name = new_name
+        self._update()
 
     @property
     def on_file(self):
@@ -224,6 +236,7 @@ class PropertyGroup(ABC):
     @property_group_type.setter
     def property_group_type(self, group_type: str):
         self._property_group_type = group_type
+        self._update()
 
     def remove_properties(self, data: Data | list[Data | uuid.UUID] | uuid.UUID):
         """
